@@ -1,7 +1,8 @@
 (* C18 — POP modes are eigen-pairs of the lag-1 feedback matrix. Statements only. *)
 From Coq Require Import String ZArith List Bool Reals Permutation.
 From XV Require Import Base.Scalar Base.Sum Base.Mat Base.RInst Model.Pop Gen.T5pop
-  Proofs.C18_proofs Proofs.C18_order Proofs.C18_tie Proofs.C18_example.
+  Proofs.C18_proofs Proofs.C18_order Proofs.C18_tie Proofs.C18_example
+  Model.FlagState Gen.T5flag Proofs.FlagState_proofs Proofs.Flag_tie.
 Import ListNotations.
 
 (* the translated expression (X[1:]^H X[:-1]) inv(X[:-1]^H X[:-1]) is C1 C0^{-1} for lag covariances
@@ -169,3 +170,18 @@ Definition C18_recovery_full : Prop :=
   (forall i, (i < q)%nat -> sum K q (fun k => fmul K (get K A i k) (vget K u k))
                             = fmul K (rho * c, rho * s)%R (vget K u i)) ->
   exists j, (j < q)%nat /\ vget K lam j = (rho * c, rho * s)%R.
+
+(* POP sorts its modes after compute() under the same flag protocol as the rotators (Gen/T5flag.v: _fit_algorithm resets the
+   flag, _sort_by_variance re-indexes once): whatever was fitted, computed or asked before, once compute() has run after the
+   last fit every mode-indexed array is that fit's array re-indexed by that fit's own permutation - patterns, coefficients,
+   eigenvalues, periods and damping times stay aligned (one re-indexing `sortA` of the whole record) *)
+Theorem C18_sorted_after_any_history : forall (A : Type) (sortA : list nat -> A -> A) (ops : list (fop A)) (s : fstate A),
+  FlagInv A sortA s ->
+  let s' := frun A sortA true true s (ops ++ [FCompute A]) in
+  fs_sorted A s' = true /\ fs_data A s' = sortA (fs_idx A s') (fs_fresh A s').
+Proof. exact after_compute_sorted. Qed.
+Print Assumptions C18_sorted_after_any_history.
+
+Theorem C18_flag_protocol_matches_source : In ("POP", (true, true))%string flag_protocol.
+Proof. exact pop_flag_protocol. Qed.
+Print Assumptions C18_flag_protocol_matches_source.
